@@ -373,6 +373,7 @@ type MOutcome struct {
 	Err           MTok
 	Indeterminate string
 	Steps         int
+	NormalResumes int // the program tried to resume a coroutine whose status is normal
 }
 
 type modelIDs struct {
@@ -490,6 +491,7 @@ func RunModel(chunk *luaref.Block, setup func(in *luaref.Interp)) MOutcome {
 	var out MOutcome
 	out.Steps = res.Steps
 	out.Indeterminate = res.Indeterminate
+	out.NormalResumes = in.NormalResumes
 	for _, e := range res.Events {
 		me := MEvent{Kind: e.Kind}
 		for _, a := range e.Args {
